@@ -534,7 +534,7 @@ def main():
     time.tzset()
     run = Run(
         PID,
-        ["RV.Props.C04", "RV.Bridge.Conversions"],
+        ["RV.Props.C04", "RV.Bridge.Conversions", "RV.Bridge.Sidereal"],
         ["RV/Model/Frames.lean", "RV/Num/Vec3.lean"],
         "Lean 4 theorems (polynomial identities with linear_combination certificates; omega over the Gregorian calendar for all years; "
         "kernel-evaluated exact-rational table for the year-boundary continuity of the sidereal angle) + differential correspondence "
